@@ -9,6 +9,7 @@ package absnfs
 import (
 	"bytes"
 	"context"
+	"encoding/binary"
 	"fmt"
 	"io"
 )
@@ -136,6 +137,15 @@ func (h *NFSProcedureHandler) HandleCall(call *RPCCall, body io.Reader, authCtx 
 			result, err = h.handleMountCall(call, body, reply, authCtx)
 		case NFS_PROGRAM:
 			result, err = h.handleNFSCall(call, body, reply, authCtx)
+			if err == nil && result != nil {
+				// Handlers flag undecodable arguments by putting GARBAGE_ARGS where
+				// the nfsstat3 goes. 4 is not a member of nfsstat3: on the wire this
+				// is the RPC accept_stat GARBAGE_ARGS with no results (RFC 1831).
+				if data, ok := result.Data.([]byte); ok && len(data) >= 4 && binary.BigEndian.Uint32(data) == GARBAGE_ARGS {
+					result.AcceptStatus = GARBAGE_ARGS
+					result.Data = nil
+				}
+			}
 		default:
 			reply.AcceptStatus = PROG_UNAVAIL
 			select {
